@@ -26,6 +26,16 @@ impl FunctionPrototypeTransform {
         member.prop.is_ident() && member.prop.as_ident().unwrap().sym == PROTOTYPE
     }
 
+    /// X.y.z: only identifiers and names, nothing whose evaluation could be observed from outside
+    pub fn is_static_member_path(member: &MemberExpr) -> bool {
+        member.prop.is_ident()
+            && match &*member.obj {
+                Expr::Member(obj) => Self::is_static_member_path(obj),
+                Expr::Ident(_) => true,
+                _ => false,
+            }
+    }
+
     /// inspects call expression searching for $class_name.prototype.$method_name.[call|apply]($this_expr, $arguments) and if there is a match
     /// returns a tuple (
     ///     ExprOrSpread -> $this_expr,
